@@ -330,3 +330,118 @@ func optionalPointerFields(c *cx, id string, in func(f *eng.Fn) bool) int {
 	}
 	return n
 }
+
+// nilReaderSinks (E-nil, interprocedural): the token reader handed to
+// xml.NewTokenDecoder / xmlstream.Copy is dereferenced at once (Decode and
+// Copy call its Token method). Where that reader is the result of a function
+// of this library, or is read from a field of a type of this library, no
+// producer yields a definite nil: no `return nil` for that result, no write
+// of nil to that field - unless the use is dominated by a non-nil test. This is
+// the contract bookmarks.(*Iter).Next relies on for pubsub.(*Iter).Item.
+func nilReaderSinks(c *cx, id string) {
+	var mayNil func(f *eng.Fn, e ast.Expr, pt eng.Point, depth int) string
+	retNil := func(callee *eng.Fn, k, depth int) string {
+		if callee == nil || callee.Body == nil || depth > 3 {
+			return ""
+		}
+		cg := callee.Graph()
+		for _, rs := range cg.Returns {
+			if c.p.Enclosing(rs.Pos()) != callee {
+				continue
+			}
+			op, _ := callee.RetOperand(rs, k)
+			if op == nil {
+				continue
+			}
+			// (nil, err): the caller's error test is the guard (that the value
+			// is not used after a failed call is rule C09.15)
+			if cg.RetKindOf(rs) == eng.RetError {
+				continue
+			}
+			rp, _ := cg.Where(rs)
+			if w := mayNil(callee, op, rp, depth+1); w != "" {
+				return callee.Short + " returns it at " + c.p.Pos(rs.Pos()) + ": " + w
+			}
+		}
+		return ""
+	}
+	calleeOf := func(f *eng.Fn, call *ast.CallExpr) *eng.Fn {
+		if fo, ok := typeutil.Callee(f.Info(), call).(*types.Func); ok {
+			return c.p.FnOf(fo.Origin())
+		}
+		return nil
+	}
+	mayNil = func(f *eng.Fn, e ast.Expr, pt eng.Point, depth int) string {
+		e = ast.Unparen(e)
+		g := f.Graph()
+		switch g.NilnessOf(e, pt) {
+		case -1:
+			return "nil"
+		case +1:
+			return ""
+		}
+		switch x := e.(type) {
+		case *ast.Ident:
+			v, _ := f.Info().Uses[x].(*types.Var)
+			if v == nil || !eng.IsLocal(v) {
+				return ""
+			}
+			for _, d := range g.ReachingDefs(v, pt) {
+				if d.RHS == nil || (d.Kind != eng.DefPlain && d.Kind != eng.DefTuple) {
+					continue
+				}
+				if call, ok := ast.Unparen(d.RHS).(*ast.CallExpr); ok && d.Kind == eng.DefTuple {
+					if w := retNil(calleeOf(f, call), d.Index, depth); w != "" {
+						return w
+					}
+					continue
+				}
+				if w := mayNil(f, d.RHS, d.At, depth+1); w != "" {
+					return w
+				}
+			}
+		case *ast.CallExpr:
+			return retNil(calleeOf(f, x), 0, depth)
+		case *ast.SelectorExpr:
+			cls, ok := f.FieldClass(x)
+			if !ok || depth > 3 {
+				return ""
+			}
+			for _, wf := range c.allFns() {
+				for _, w := range wf.FieldWrites(cls) {
+					if w.RHS == nil {
+						continue
+					}
+					wp, _ := wf.Graph().Where(w.Stmt)
+					if wf.Graph().NilnessOf(w.RHS, wp) == -1 {
+						return "nil is written to " + cls + " at " + c.p.Pos(w.Stmt.Pos())
+					}
+				}
+			}
+		}
+		return ""
+	}
+	n := 0
+	for _, f := range c.allFns() {
+		for _, call := range f.AllCalls() {
+			ai := -1
+			switch f.CalleeID(call) {
+			case "encoding/xml.NewTokenDecoder":
+				ai = 0
+			case "mellium.im/xmlstream.Copy":
+				ai = 1
+			}
+			if ai < 0 || ai >= len(call.Args) {
+				continue
+			}
+			pt, ok := f.Graph().Where(call)
+			if !ok {
+				continue
+			}
+			n++
+			why := mayNil(f, call.Args[ai], pt, 0)
+			c.r.Check(id, f, "reader handed to "+f.CalleeID(call)+" ["+f.Norm(call.Args[ai], &pt)+"]", "E-nil: no producer of the token reader (result of a library function, field of a library type) yields a definite nil without a non-nil test before the use", call.Pos(), why == "", why)
+		}
+	}
+	c.r.Floor(id, "token readers handed to NewTokenDecoder/Copy", n, 20)
+}
